@@ -3,7 +3,7 @@
 from .. import core, tree
 
 MOD = "mc.props.c15"
-KINDS = ("node", "user", "light", "weird", "falsy", "eqhash", "falsylight", "norepr", "container", "tuplenode", "tuple0")
+KINDS = ("node", "user", "light", "weird", "falsy", "eqhash", "falsylight", "norepr", "container", "tuplenode", "tuple0", "datanode")
 
 
 def expected(m, a, b):
